@@ -1335,7 +1335,9 @@ func (vc *FnVC) next(st *State, n *ssa.Next) *Val {
 		rl := sx("gs.runelen", s, pos)
 		vc.assume(st, smtImp(ok, smtAnd(sx("<=", "1", rl), sx("<=", rl, "4"), sx("<=", sx("+", pos, rl), sx("gs.len", s)),
 			sx("<=", "0", sx("gs.runeat", s, pos)), sx("<=", sx("gs.runeat", s, pos), "1114111"),
-			smtImp(sx("<", sx("gs.at", s, pos), "128"), smtAnd(sx("=", rl, "1"), sx("=", sx("gs.runeat", s, pos), sx("gs.at", s, pos)))))))
+			smtImp(sx("<", sx("gs.at", s, pos), "128"), smtAnd(sx("=", rl, "1"), sx("=", sx("gs.runeat", s, pos), sx("gs.at", s, pos)))),
+			// and conversely: a rune below utf8.RuneSelf is only ever decoded from that single byte
+			smtImp(sx("<", sx("gs.runeat", s, pos), "128"), smtAnd(sx("=", rl, "1"), sx("=", sx("gs.runeat", s, pos), sx("gs.at", s, pos)))))))
 		vc.assume(st, sx("<=", "0", pos))
 		vc.set(st, key, smtIte(ok, sx("+", pos, rl), pos))
 		return tuple(tt, &Val{T: types.Typ[types.Bool], S: ok}, &Val{T: tt.At(1).Type(), S: pos}, &Val{T: tt.At(2).Type(), S: vc.define("rune", "Int", sx("gs.runeat", s, pos))})
